@@ -21,7 +21,8 @@
 (***************************************************************************)
 EXTENDS Elem, TLC
 
-CONSTANTS MaxCells,      \* em scenario: datasets with n * p <= MaxCells cells
+CONSTANTS MaxN,          \* em scenario: datasets with n <= MaxN samples
+          MaxCells,      \* ... and n * p <= MaxCells cells
           MaxC,          \* lattice coordinates 0..MaxC
           MaxK,          \* components 1..MaxK
           RD,            \* responsibilities are multiples of 1/RD
@@ -176,13 +177,15 @@ RowClauses(num, proba, ord, label, K, scale, tol, Le(_, _), Zero) ==
 (* Part 2: design model *)
 IntLe(a, b) == a <= b
 Regs == {<<0, 1>>, <<1, 2>>, <<1, 10>>}
-Doms == {d \in (1..MaxCells) \X (1..2) : d[1] >= 2 /\ d[1] * d[2] <= MaxCells}
+Doms == {d \in (1..MaxN) \X (1..2) : d[1] >= 2 /\ d[1] * d[2] <= MaxCells}
 RespRows(K) == {r \in [1..K -> 0..RD] : SumSeq(r) = RD}
 WlpGrid == {0, -3000, -50000, -200000, -7000000, -7451400, -9000000, -2000000000}
 Underflow == -7451300        \* exp() of an f64 below -745.13 is 0
 NoModel == [k |-> 0]
 NoRow == [num |-> TRUE, proba |-> <<>>, label |-> 0]
 
+LexLe(a, b) == IF a[1] # b[1] THEN a[1] < b[1] ELSE IF Len(a) = 1 THEN TRUE ELSE a[2] <= b[2]
+SortedRows(x) == \A i \in 1..(Len(x) - 1) : LexLe(x[i], x[i + 1])
 \* the scenario is chosen in two steps (configuration, then data and responsibilities) so that TLC's
 \* workers share the exploration
 Init ==
@@ -210,6 +213,7 @@ ChooseData ==
             /\ Rsp' = <<>>
      ELSE IF scen = "em"
        THEN /\ X' \in [1..Len(X) -> [1..Len(X[1]) -> 0..MaxC]]
+            /\ SortedRows(X')           \* samples in lexicographic order: every (X, Rsp) is a joint permutation of such a pair
             /\ Rsp' \in [1..Len(X) -> RespRows(kk)]
        ELSE /\ X' = X /\ Rsp' = [i \in 1..2 |-> [c \in 1..kk |-> IF c = 1 THEN RD ELSE 0]]
   /\ pc' = "init"
